@@ -284,6 +284,35 @@ func TestC13(t *testing.T) {
 		}
 	}
 	ev.Class("junction-sweeps", int64(len(whites)*9))
+	// exact special values: components exactly 0, exactly white*eps (as float32), exactly the white, and Lab values
+	// exactly at L* = 8 (= kappa*eps), 0 and 100
+	for _, w := range whites {
+		sp := func(i int) []float32 {
+			return []float32{0, float32(float64(w[i]) * ref.LabEps), w[i], float32(math.Copysign(0, -1)), 1, w[i] / 2}
+		}
+		for _, x := range sp(0) {
+			for _, y := range sp(1) {
+				for _, z := range sp(2) {
+					c := Case{Kind: "tolab", V: [3]float32{x, y, z}, White: w}
+					ev.Eval(1)
+					ev.NT(ev.Hash("special", c))
+					if kk, ww := check(c); kk != "" {
+						ev.Violation("lab", kk, ww, c)
+					}
+				}
+			}
+		}
+		for _, L := range []float32{0, 8, 7.9999995, 8.000001, 100, 50} {
+			for _, a := range []float32{0, -0.0001, 128} {
+				c := Case{Kind: "fromlab", V: [3]float32{L, a, -a}, White: w}
+				ev.Eval(1)
+				ev.NT(ev.Hash("special", c))
+				if kk, ww := check(c); kk != "" {
+					ev.Violation("lab", kk, ww, c)
+				}
+			}
+		}
+	}
 	ev.Sample(map[string]any{"kind": "tolab", "xyz": []float32{0.2, 0.3, 0.4}, "white": "D50", "lab": ciexyz.Color{X: 0.2, Y: 0.3, Z: 0.4}.ToLAB(ciexyz.D50), "definition": ref.ToLab(ref.V3{float64(float32(0.2)), float64(float32(0.3)), float64(float32(0.4))}, v3(D50))})
 
 	ev.RapidChecks(ev.Pick(200000, 5000000))
